@@ -383,22 +383,39 @@ fn viseca_case(ws: &[&str]) -> String {
         Some(e) => format!("(err {} {} {})", err_kind(e), enc(&viseca_site(e)), es.join(" ")),
     };
     // 2. the importer
+    let mut printed: Option<String> = None;
     let imp = match import::import(&content[..], Format::Viseca, &entry) {
         Err(e) => format!("(err import {} {})", err_kind(&e), enc(&viseca_site(&e))),
         Ok(xacts) => {
             let mut trees = Vec::new();
             let mut bad = None;
+            let dctx = okane_core::syntax::display::DisplayContext {
+                precisions: entry.format.commodity.iter().map(|(k, v)| (k.clone(), v.precision)).collect(),
+            };
+            let mut text = String::new();
             for x in &xacts {
                 match x.to_double_entry(&entry.account) {
-                    Ok(t) => trees.push(tree::txn(&t)),
+                    Ok(t) => {
+                        text.push_str(&format!("{}\n", dctx.as_display(&t)));
+                        trees.push(tree::txn(&t))
+                    }
                     Err(e) => {
                         bad = Some(format!("(err to_double_entry {} ~)", err_kind(&e)));
                         break;
                     }
                 }
             }
+            if bad.is_none() {
+                printed = Some(text);
+            }
             bad.unwrap_or_else(|| format!("(ok {})", trees.join(" ")))
         }
+    };
+    // 2b. the real COMMAND on files (the statement reached through a symbolic link, a decoy configuration document for the real
+    // location): only the documents whose `path` matches the path as typed take part
+    let cmd = match (std::str::from_utf8(&content), Path::new(&path).file_name().and_then(|f| f.to_str())) {
+        (Ok(text), Some(fname)) if perr.is_none() => crate::c16::cmd_check_named(&yaml, text, fname, printed.as_deref()),
+        _ => "-".to_string(),
     };
     // 3. the regex crate's verdicts for the configured patterns
     let mut pats: std::collections::BTreeSet<String> = std::collections::BTreeSet::new();
@@ -453,12 +470,13 @@ fn viseca_case(ws: &[&str]) -> String {
         .collect();
     let pat_sx: Vec<String> = compiled.iter().map(|(p, re)| format!("({} {})", enc(p), re.is_some() as u8)).collect();
     format!(
-        "(ok (cfg {}) (parse {}) (import {}) (pats {}) (table {}))",
+        "(ok (cfg {}) (parse {}) (import {}) (pats {}) (table {}) (cmd {}))",
         crate::c17::entry_sx(&entry),
         parse,
         imp,
         pat_sx.join(" "),
-        tab.join(" ")
+        tab.join(" "),
+        cmd
     )
 }
 
